@@ -191,4 +191,15 @@ func factsFrontend() {
 		}
 	}
 	emitList("altKeysStepLines", "pkg/queryfrontend/cache.go GenerateCacheKeyAlternatives: statements mentioning the step", alt)
+
+	// ---- C44
+	an := parse("pkg/querysharding/analyzer.go")
+	emitList("analyzeBody", "pkg/querysharding/analyzer.go QueryAnalyzer.Analyze", feBody(fn(an, "QueryAnalyzer", "Analyze")))
+	as := parse("pkg/querysharding/analysis.go")
+	emitList("scopeToLabelsBody", "pkg/querysharding/analysis.go QueryAnalysis.scopeToLabels", feBody(fn(as, "QueryAnalysis", "scopeToLabels")))
+	emitList("isShardableBody", "pkg/querysharding/analysis.go QueryAnalysis.IsShardable", feBody(fn(as, "QueryAnalysis", "IsShardable")))
+	si := parse("pkg/store/storepb/shard_info.go")
+	emitList("matchesZLabelsBody", "pkg/store/storepb/shard_info.go ShardMatcher.MatchesZLabels", feBody(fn(si, "ShardMatcher", "MatchesZLabels")))
+	emitList("shardByLabelBody", "pkg/store/storepb/shard_info.go shardByLabel", feBody(fn(si, "", "shardByLabel")))
+	emitList("shardQueryBody", "pkg/queryfrontend/shard_query.go querySharder.shardQuery", feBody(fn(parse("pkg/queryfrontend/shard_query.go"), "querySharder", "shardQuery")))
 }
